@@ -179,6 +179,16 @@ func verifyFunc(prog *ssa.Program, fn *ssa.Function, ctr *Contract, all map[stri
 			}
 		}
 		if target == nil {
+			// a callee in another package of the module
+			for cand := range ssautil.AllFunctions(prog) {
+				if cand.Pkg != nil && strings.HasPrefix(cand.Pkg.Pkg.Path(), modulePrefix) && (shortFn(cand) == cn || cand.Name() == cn) && !strings.Contains(cand.Name(), "$") {
+					if target == nil || cand.String() < target.String() {
+						target = cand
+					}
+				}
+			}
+		}
+		if target == nil {
 			panic("ghostcall: no function " + cn)
 		}
 		ai := ghostArgIndex(target, ctr.GhostArg[cn])
